@@ -97,7 +97,7 @@ func (s *Scope) withFrame(params []string, sorts []Sort) *Scope {
 	return &n
 }
 
-var pool = []string{"x", "y", "z", "u", "v", "w"}
+var pool = []string{"x", "y", "z", "u", "v", "w", "r", "s", "t", "c", "d", "g", "h", "o", "x1", "x2", "x3", "x4", "x5", "x6", "x7", "x8"}
 
 // newNames returns the candidate names for a new binder: the first pool name not visible anywhere
 // (fresh), and — if there is one — the innermost visible name that is not declared in the current
